@@ -20,7 +20,7 @@ pub fn impl_amp(a0: u64, a1: u64, now: u64, h0: u64, h1: u64) -> Outcome<u64> {
 }
 
 /// independent evaluation of the property's statement about the effective amp (u128 arithmetic cannot overflow: 64x64 bits)
-fn amp_expected(a0: u64, a1: u64, now: u64, h0: u64, h1: u64) -> u64 {
+pub fn amp_expected(a0: u64, a1: u64, now: u64, h0: u64, h1: u64) -> u64 {
     if now >= h1 { return a1; }
     let t = (h1 - h0) as u128;
     let d = (now - h0) as u128;
@@ -219,6 +219,7 @@ fn ramp_histories(out: &mut Out, rng: &mut Rng, n: u64) {
 // curve functions through the hook
 // ---------------------------------------------------------------------------------------------
 use crate::big::{self, b, B};
+use crate::c04_pool::{dust_allowance, KNOWN_DUST};
 use cosmwasm_std::{Uint128, Uint256};
 
 pub type Ramp5 = (u64, u64, u64, u64, u64);
@@ -420,14 +421,26 @@ fn monitor_swap(out: &mut Out, t: Ramp5, amp: u64, (src, dst, uns): (u128, u128,
         out.count("validation:d_true_across_swap");
         if after < before {
             dust_log(out, "swap_d", &(before - after).to_string(), amp, [src, dst, uns], [sr.ns, sr.nd, uns]);
-            out.monitor_fail("C04", &format!("VALIDATION exact curve: true invariant fell across a swap ({} -> {})", before, after), replay.clone()); }
+            if before - after <= dust_allowance(amp, &[[src, dst, uns], [sr.ns, sr.nd, uns]]) {
+                out.known_hit("C04", KNOWN_DUST, &format!("true invariant fell by {} (rounding dust) across a swap", before - after), replay.clone());
+            } else {
+                out.monitor_fail("C04", &format!("VALIDATION exact curve: true invariant fell across a swap beyond rounding dust ({} -> {})", before, after), replay.clone());
+            }
+        }
     }
     // there and straight back never yields a profit
     if sr.dy > 0 {
         out.monitor_evals += 1;
         if let Outcome::Ok(back) = impl_swap_to(t, sr.dy, sr.nd, sr.ns, uns) {
             out.count("roundtrip:evaluated");
-            if back.dy > x { dust_log(out, "roundtrip", &(back.dy - x).to_string(), amp, [src, dst, uns], [sr.ns, sr.nd, uns]); out.monitor_fail("C04", &format!("swap there-and-back returned {} for {} put in", back.dy, x), replay.clone()); }
+            if back.dy > x {
+                dust_log(out, "roundtrip", &(back.dy - x).to_string(), amp, [src, dst, uns], [sr.ns, sr.nd, uns]);
+                if b(back.dy - x) <= dust_allowance(amp, &[[src, dst, uns], [sr.ns, sr.nd, uns]]) {
+                    out.known_hit("C04", KNOWN_DUST, &format!("swap there-and-back returned {} for {} put in (rounding dust)", back.dy, x), replay.clone());
+                } else {
+                    out.monitor_fail("C04", &format!("swap there-and-back returned {} for {} put in", back.dy, x), replay.clone());
+                }
+            }
         }
     }
 }
@@ -446,7 +459,12 @@ fn monitor_mint(out: &mut Out, t: Ramp5, amp: u64, r: [u128; 3], dep: [u128; 3],
         let f1 = big::d3_true_floor(amp as u128 * 3, n);
         // D1/(S+m) >= D0/S for the true values implies (floor D1 + 1) S > floor D0 (S + m)
         if !((f1 + B::ONE) * b(supply) > f0 * (b(supply) + b(mint))) {
-            out.monitor_fail("C04", "VALIDATION exact curve: true invariant per LP token fell across a deposit", replay.clone());
+            let allow = dust_allowance(amp, &[r, n]);
+            if (f1 + B::ONE + allow) * b(supply) > f0 * (b(supply) + b(mint)) {
+                out.known_hit("C04", KNOWN_DUST, "true invariant per LP token fell by rounding dust across a deposit", replay.clone());
+            } else {
+                out.monitor_fail("C04", "VALIDATION exact curve: true invariant per LP token fell across a deposit beyond rounding dust", replay.clone());
+            }
         }
     }
 }
@@ -455,9 +473,11 @@ pub fn run(args: &Args) {
     let mut out = Out::new(&args.out);
     out.rule = "amp: non-trivial = height strictly inside a started ramp with start != target; ramp histories: non-trivial = an accepted ramp, \
                 distinct by (current amp, target, height, stop height)".into();
-    let mut rng = Rng::new(args.seed);
+    // common::Rng::new(k+1) is Rng::new(k) shifted by one draw; scramble so that different VERIF_SEEDs give unrelated streams
+    let mut rng = Rng::new(hash64(&[args.seed as u128, 0xC04]));
     amp_pure(&mut out, &mut rng, args.n);
     ramp_histories(&mut out, &mut rng, (args.n / 8).max(30));
     curve_pure(&mut out, &mut rng, args.n);
+    crate::c04_pool::pool_histories(&mut out, &mut rng, (args.n / 10).max(20));
     out.finish();
 }
